@@ -56,6 +56,21 @@ CLAIMED["C16"] = dict(
     technique="Lean 4 inductive proofs over the index generator + exact table correspondence + numeric oracle for dynamics",
     ref="DESIGN.md §5 C16")
 
+CLAIMED["C05"] = dict(
+    text="Lean 4 proof over a field with symbolic non-zero conversion factors: the exact conversion law for every pair of units "
+         "including the reciprocal (wavelength) branch, round trip in one unit, independence of the stored value; the unit lists "
+         "and the reciprocal branch are re-extracted from managers.py/units.py on every run (every unit has a factor, both "
+         "conversion directions agree on the reciprocal units). Context bookkeeping: every properly nested program of "
+         "energy_units blocks (any depth, blocks left through exceptions) restores units, backup stack and nesting counter "
+         "(contexts_restore, induction over bracketed programs); the single raw set/unset slot is proved NOT to nest "
+         "(raw_slot_clobbered, the mechanism of the fixed Aggregate.build defect). Tied to the code by the unit-pair x accessor "
+         "matrix (8 accessors, exact rational conversion from the code's own factors) and by random context programs with "
+         "exceptions, unknown units, raw set/unset and 11 library calls, each of which must leave the caller's units unchanged.",
+    note="Lean kernel + standard axioms; extractor + harness (ours); numeric factor values are the code's (symbolic in the "
+         "theorems); 'no library call changes units' is decided by the oracle over the calls exercised, not proved for all calls.",
+    technique="Lean 4 field identities + induction over bracketed context programs + exact state correspondence",
+    ref="DESIGN.md §5 C05")
+
 NOT_APPLICABLE = {}
 
 
